@@ -50,20 +50,26 @@ Definition pack_nibbles (l : list (option Z)) : list N :=
 Definition nlist_eqb (a b : list N) : bool := list_eqb N.eqb a b.
 
 Record ocase := mkOC {
-  o_st : stopper; o_prune : bool; o_losses : list Q;
-  o_it : nat; o_ib : Z; o_hlen : nat; o_nnan : nat; o_posok : bool }.
+  o_st : stopper; o_hv : bool; o_restore : bool; o_prune : bool; o_losses : list Q;
+  o_it : nat; o_ib : Z; o_hlen : nat; o_nnan : nat;
+  o_poshist : list Q;     (* recorded position history (exact dyadics, entries up to the last iteration) *)
+  o_pos : Q }.            (* returned position *)
 
 Definition is_none {A} (o : option A) : bool := match o with None => true | _ => false end.
 
 Definition agrees_o (c : ocase) : bool :=
   let loss := fun k => nth k (o_losses c) 0%Q in
-  match optim_loop (o_st c) loss with
-  | Some (j, h) =>
+  match optim_flat_model (o_st c) (o_hv c) (o_restore c) loss with
+  | Some o =>
+      let j := out_iter o in
+      let h := out_hist o in
       Nat.eqb j (o_it c)
-      && match which_best (o_st c) j h with Some b => (b =? o_ib c)%Z | None => false end
+      && (out_best o =? o_ib c)%Z
       && Nat.eqb (length (post_history (o_prune c) h j)) (o_hlen c)
       && Nat.eqb (length (filter is_none (post_history (o_prune c) h j))) (o_nnan c)
-      && o_posok c
+      && (0 <=? out_pos_index o)%Z
+      && (Z.to_nat (out_pos_index o) <? length (o_poshist c))%nat
+      && Qeq_bool (nth (Z.to_nat (out_pos_index o)) (o_poshist c) 0%Q) (o_pos c)
   | None => false
   end.
 
